@@ -5,6 +5,7 @@
       C02  a build right after a successful build, with nothing changed, runs no command; so does a build right after a clean
       C07  every cache entry is named after the hash of its bytes
       C08  every content held at a target path or in the cache before an invocation is still held afterwards
+      C09  no build or clean changes a source, the rules file, an undeclared file or (for a goal build / goal clean) a target that is out of scope
       C18  the same history with the file-state table erased before every build ends with the same files and verdicts
     Clock: one tick per user action and per ruler invocation (the FakeSystem clock; all writes of one invocation share a time).
     Output: `WITNESS <oracle> :: <history> :: <what>` and `SUMMARY <oracle> cases=N disagreements=M`. */
@@ -78,6 +79,15 @@ fn params(goal: Option<&str>) -> BuildParams { BuildParams::from_all(".ruler".to
 fn read(system: &FakeSystem, p: &str) -> Option<String> { if system.is_file(p) { read_file_to_string(system, p).ok() } else { None } }
 const TARGETS : [&str; 6] = ["stanza.txt", "poem.txt", "aside.txt", "copy.txt", "song.txt", "album.txt"];
 
+/*  (content, mtime, executable bit) of a file, for the C09 oracle */
+fn stat(system: &FakeSystem, p: &str) -> Option<(String, std::time::SystemTime, bool)>
+{
+    if !system.is_file(p) { return None; }
+    Some((read_file_to_string(system, p).ok()?, system.get_modified(p).ok()?, system.is_executable(p).ok()?))
+}
+const UNTOUCHABLE : [&str; 6] = ["verse.txt", "refrain.txt", "note.txt", "hidden.txt", "build.rules", "undeclared.txt"];
+const OUT_OF_POEM_SCOPE : [&str; 4] = ["aside.txt", "copy.txt", "song.txt", "album.txt"];
+const OUT_OF_STANZA_SCOPE : [&str; 5] = ["poem.txt", "aside.txt", "copy.txt", "song.txt", "album.txt"];
 /*  contents held at target paths or in the cache */
 fn held(system: &FakeSystem) -> BTreeSet<String>
 {
@@ -112,6 +122,7 @@ fn run_history(h: &Vec<Act>, drop_table: bool) -> Outcome
     write_str_to_file(&mut system, "refrain.txt", "La la la.\n").unwrap();
     write_str_to_file(&mut system, "note.txt", "N.B.\n").unwrap();
     write_str_to_file(&mut system, "hidden.txt", "(hidden)\n").unwrap();
+    write_str_to_file(&mut system, "undeclared.txt", "not mentioned in any rule\n").unwrap();
     /*  C02 bookkeeping for the chain rule stanza.txt <- verse.txt: the verse it was last successfully built from */
     let mut stanza_settled : Option<String> = None;
     let mut complaints = vec![]; let mut verdicts = vec![];
@@ -121,6 +132,8 @@ fn run_history(h: &Vec<Act>, drop_table: bool) -> Outcome
         system.time_passes(1);
         let before = held(&system);
         let log_before = system.get_command_log().len();
+        let stats_before : Vec<(String, Option<(String, std::time::SystemTime, bool)>)> =
+            UNTOUCHABLE.iter().chain(OUT_OF_STANZA_SCOPE.iter()).map(|p| (p.to_string(), stat(&system, p))).collect();
         let mut is_ruler = false;
         match a
         {
@@ -202,6 +215,14 @@ fn run_history(h: &Vec<Act>, drop_table: bool) -> Outcome
         }
         if is_ruler
         {
+            let scope_free : Vec<&str> = match a { Act::BuildPoem => OUT_OF_POEM_SCOPE.to_vec(), Act::CleanStanza => OUT_OF_STANZA_SCOPE.to_vec(), _ => vec![] };
+            for (p, st) in stats_before.iter()
+            {
+                if (UNTOUCHABLE.contains(&p.as_str()) || scope_free.contains(&p.as_str())) && stat(&system, p) != *st
+                {
+                    complaints.push(("B-build-C09".to_string(), format!("{} was changed by the invocation (content, modification time or permission)", p)));
+                }
+            }
             if let Some(c) = cache_ok(&system) { complaints.push(("B-build-C07".to_string(), c)); }
             let after = held(&system);
             /*  contents overwritten by a command that ran are the command's doing; everything else must survive */
@@ -224,7 +245,7 @@ fn run_history(h: &Vec<Act>, drop_table: bool) -> Outcome
 fn verif_build_histories()
 {
     let max_len : usize = std::env::var("VERIF_HISTORY_LEN").ok().and_then(|s| s.parse().ok()).unwrap_or(4);
-    let names = ["B-build-C01", "B-build-C02", "B-build-C04", "B-build-C07", "B-build-C08", "B-build-C18"];
+    let names = ["B-build-C01", "B-build-C02", "B-build-C04", "B-build-C07", "B-build-C08", "B-build-C09", "B-build-C18"];
     let mut bad = vec![0u64; names.len()]; let mut cases = 0u64;
     for len in 1..=max_len
     {
@@ -274,7 +295,7 @@ fn verif_build_long_histories()
         vec![HiddenGone, Build, Build, HiddenBack, Build, Build],
         vec![Build, HiddenGone, VerseB, Build, HiddenBack, Build],
     ];
-    let names = ["B-build-C01", "B-build-C02", "B-build-C04", "B-build-C07", "B-build-C08", "B-build-C18"];
+    let names = ["B-build-C01", "B-build-C02", "B-build-C04", "B-build-C07", "B-build-C08", "B-build-C09", "B-build-C18"];
     let mut bad = vec![0u64; names.len()];
     for h in hs.iter()
     {
